@@ -12,7 +12,8 @@ import PV.Model.Diff
     * `c10RuleEval`      — the `if (not df) and (not dg) … elif … else` chains of `map_quotient` /
                            `map_power`;
     * `diffG`            — the differentiator with the function table, the quotient and power
-                           rules, the `If` gate and the leaf rules as PARAMETERS;
+                           rules, the `If` gate, the answer of the CSE handler for a vanishing
+                           child derivative and the leaf rules as PARAMETERS;
     * `c10DiffT T`       — `diffG` driven by a table `T`.
 
   `PV/Proofs/DiffTable.lean` proves `diffG c10ModelRules = diff` (once, independent of the table);
@@ -93,6 +94,10 @@ inductive C10Shape where
   /-- `[if self.allowed_nonsmoothness != …: raise …]  return type(expr)(part, …)`; a part is
       `(differentiated?, field)` -/
   | rebuild (gated : Bool) (parts : List (Bool × String))
+  /-- `result = self.rec(expr.<fld>, *args)`; `if primitives.is_zero(result): return <int literal>`
+      (the literal is `cseZero`); `return type(expr)(part, …)` where the part `(true, fld)` is the
+      local `result` -/
+  | rebuildUnlessZero (parts : List (Bool × String))
   /-- `differentiate`: a `variable` that is no instance of the listed classes goes through
       `make_variable`; default setting -/
   | entryPoint (varClasses : List String) (defaultSetting : String)
@@ -114,6 +119,10 @@ structure C10DiffTable where
   pow : C10BinRule
   /-- `map_if`: settings that pass the gate, and the error raised otherwise -/
   ifGate : List Smooth × DiffErr
+  /-- `map_common_subexpression_uncached`: `some n` — a child derivative that `primitives.is_zero`
+  accepts is answered by the int literal `n` instead of a wrapper around it; `none` — the handler
+  wraps unconditionally -/
+  cseZero : Option Int
   /-- `__init__`: the accepted `allowed_nonsmoothness` strings, and what `None` stands for -/
   settings : List String
   noneSetting : String
@@ -236,9 +245,18 @@ structure C10Rules where
   pow : Expr → Expr → Expr → Expr → DiffR
   /-- `map_if`: the error for a setting that does not pass the gate -/
   ifErr : Smooth → Option DiffErr
+  /-- `map_common_subexpression_uncached`: what a vanishing (`is_zero`) child derivative is
+  answered with (`none`: wrapped like any other) -/
+  cseZero : Option Expr
   constD : Expr
   varHit : Expr
   varMiss : Expr
+
+/-- `map_common_subexpression_uncached` after the recursive call -/
+def c10CseRule (z : Option Expr) (d : Expr) (p : Option String) (s : String) : Expr :=
+  match z with
+  | some z => if d.isZero then z else .cse d p s
+  | Option.none => .cse d p s
 
 mutual
 /-- `diff` (PV/Model/Diff.lean) with the table-determined parts taken from `R` -/
@@ -288,7 +306,7 @@ def diffG (R : C10Rules) (cfg : Smooth) (v : Expr) : Expr → DiffR
       if c.hasList then throw .typeError
       else do
         let d ← diffG R cfg v c
-        pure (.cse d p s)
+        pure (c10CseRule R.cseZero d p s)
   | .subst _ _ _ => throw .unsupported
   | .deriv _ _ => throw .unsupported
   | .slice _ => throw .unsupported
@@ -328,6 +346,7 @@ def c10ModelRules : C10Rules where
   quot := fun f g df dg => liftOp (quotRule f g df dg)
   pow := fun f g df dg => liftOp (powRule f g df dg)
   ifErr := fun cfg => if cfg = .discontinuous then Option.none else some .valueError
+  cseZero := some zero
   constD := zero
   varHit := one
   varMiss := zero
@@ -338,6 +357,7 @@ def c10RulesOf (T : C10DiffTable) : C10Rules where
   quot := c10RuleEval T.quot
   pow := c10RuleEval T.pow
   ifErr := fun cfg => if T.ifGate.1.contains cfg then Option.none else some T.ifGate.2
+  cseZero := T.cseZero.map fun n => .const (.int n)
   constD := .const (.int T.constVal)
   varHit := .const (.int T.varHit)
   varMiss := .const (.int T.varMiss)
@@ -362,7 +382,7 @@ def c10ModelShapes : List (String × C10Shape) := [
   ("map_numpy_array", .unmodelled),
   ("map_if", .rebuild true [(false, "condition"), (true, "then"), (true, "else_")]),
   ("map_common_subexpression_uncached",
-    .rebuild false [(true, "child"), (false, "prefix"), (false, "scope")]),
+    .rebuildUnlessZero [(true, "child"), (false, "prefix"), (false, "scope")]),
   ("differentiate", .entryPoint ["Variable", "Subscript"] "none")]
 
 end PV
